@@ -155,11 +155,11 @@ def listing_case(h0, h1, h2, sf, ff, header, colmode='all'):
                 paths = [src]
             repo = fresh_repo(U_, 'A', be)
             tick0 = rt._DetDatetime._tick
-            res = rt.MiniLoop().run_until_complete(repo.snapshot(paths=paths, note=None if i == 1 else f'note {i}'))
+            res = rt.MiniLoop().run_until_complete(repo.snapshot(paths=paths, note=None if i == 1 else f'nöte ✓ {i}'))
             # ground truth for "true times" and "newest first" is the harness clock (UTC), not what the snapshot recorded
             true_ts = str(rt._DetDatetime.true_utc(tick0 + 1))
-            snaps.append({'name': res.name, 'files': files, 'ts': true_ts, 'note': None if i == 1 else f'note {i}',
-                          'data': res.data, 'chunks': res.chunks})
+            snaps.append({'name': res.name, 'files': files, 'ts': true_ts, 'note': None if i == 1 else f'nöte ✓ {i}',
+                          'data': res.data, 'chunks': res.chunks, 'mtimes': {p: os.stat(p).st_mtime_ns for p in files}})
         # a snapshot of the independent user must never show up
         repo_c = fresh_repo(U_, 'C', be)
         rt.MiniLoop().run_until_complete(repo_c.snapshot(paths=[src]))
@@ -195,8 +195,10 @@ def listing_case(h0, h1, h2, sf, ff, header, colmode='all'):
             for fdata in s['data']['files']:
                 p = fdata['path']
                 if fregex is None or re.search(fregex, p):
-                    mt = datetime.fromtimestamp(fdata['metadata']['st_mtime_ns'] / 1e9, tz=timezone.utc).replace(tzinfo=None).isoformat(sep=' ', timespec='seconds')
-                    want_rows.append([s['name'], s['ts'][:19], p, str(len(fdata['chunks'])), U.bytes_to_human(len(s['files'][p])), fdata['digest'].hex(), mt])
+                    # (the mtime the harness set with utime before that snapshot, not the one read back from the record)
+                    mt = datetime.fromtimestamp(s['mtimes'][p] / 1e9, tz=timezone.utc).replace(tzinfo=None).isoformat(sep=' ', timespec='seconds')
+                    want_rows.append([s['name'], s['ts'][:19], p, str(len(fdata['chunks'])), U.bytes_to_human(len(s['files'][p])),
+                                      repo.props.hash_digest(s['files'][p]).hex(), mt])      # digest recomputed from the bytes, not read back
         if header and want_rows:
             lines = lines[1:]
         rows = [[c.strip() for c in l.split('\t')] for l in lines]
